@@ -2,7 +2,7 @@
   The concrete example world used by the non-vacuity examples and the counterexample theorems of
   Props/C04.lean and Props/C05.lean.  Core Lean only.
 -/
-import KavaVerif.Proofs.CdpMore
+import KavaVerif.Proofs.CdpDrift
 set_option linter.unusedSimpArgs false
 set_option linter.unusedVariables false
 
